@@ -47,6 +47,12 @@ Theorem C18_topology_injective o nprocs PPN p q : supported o -> 1 <= nprocs -> 
   Topology_get_local_proc o nn PPN p = Topology_get_local_proc o nn PPN q -> p = q.
 Proof. apply topology_injective. Qed.
 
+(* the rank a process gets inside local_comm = MPI_Comm_split(COMM_WORLD, color = get_node(rank), key = rank),
+   i.e. the number of lower ranks on the same node, is get_local_proc(rank) - the node-aware packages rely on it *)
+Theorem C18_comm_split_rank o nprocs PPN (p : nat) : supported o -> 1 <= PPN -> Z.of_nat p < nprocs ->
+  Z.of_nat (split_rank o nprocs PPN p) = Topology_get_local_proc o (topo_num_nodes nprocs PPN) PPN (Z.of_nat p).
+Proof. apply split_rank_is_local_proc. Qed.
+
 Example C18_topology_nonvacuous :
   supported 2 /\ 1 <= 5 /\ 1 <= 2 /\ 0 <= 4 < 5 /\ topo_num_nodes 5 2 = 3 /\
   Topology_get_node 2 3 2 4 = 1 /\ Topology_get_local_proc 2 3 2 4 = 1 /\ Topology_get_global_proc 2 3 2 1 1 = 4.
@@ -176,6 +182,7 @@ Print Assumptions C18_num_nodes.
 Print Assumptions C18_topology_roundtrip.
 Print Assumptions C18_topology_inverse.
 Print Assumptions C18_topology_injective.
+Print Assumptions C18_comm_split_rank.
 Print Assumptions C18_block_rows.
 Print Assumptions C18_block_cols.
 Print Assumptions C18_block_zero_rows.
